@@ -175,16 +175,19 @@ class _Policy:
     thorough=[{"flavour": fl, "mode": "cut2", "_pre": f"v == {v}"} for fl in ("sync", "async") for v in range(4)]
     + [{"flavour": fl, "mode": md} for fl in ("sync", "async") for md in ("cut1", "one", "trunc", "rst")],
     example=dict(v=0, c1=20, c2=0, t=0, r=0, e=0),
-    require=("complete", "body-delivered"),
+    require=("C02:complete", "C02:body-delivered", "C15:reset"),
     timeout={"quick": 300, "thorough": 1500},
-    symbolic="response variant (4: DATA in several frames, duplicate headers, 204, long header); cut positions anywhere in the server's byte stream (inside the 9-byte frame header, HPACK block, SETTINGS); truncation point; RST_STREAM after r frames with an error code from {INTERNAL_ERROR, NO_ERROR, CANCEL}",
+    symbolic="response variant (4: DATA in several frames, duplicate headers, 204, long header); cut positions anywhere in the server's byte stream (inside the 9-byte frame header, HPACK block, SETTINGS); truncation point; RST_STREAM after r frames with an error code from {INTERNAL_ERROR, NO_ERROR, CANCEL, REFUSED_STREAM}",
     bounds="quick: every single cut, one byte per read, every truncation point, every reset point; thorough: every pair of cuts",
     outside="CONTINUATION frames, padded frames, trailers",
     stubs=("h2 native on both sides; the server side of the h2 library produces the frames",),
+    also=("C15",),
+    per_prop={"C15": {"quick": [{"flavour": fl, "mode": "rst"} for fl in ("sync", "async")],
+                      "thorough": [{"flavour": fl, "mode": md} for fl in ("sync", "async") for md in ("rst", "trunc")]}},
 )
 def h2_segmentation(v: int, c1: int, c2: int, t: int, r: int, e: int) -> None:
     """
-    pre: 0 <= v <= 3 and 0 <= e <= 2
+    pre: 0 <= v <= 3 and 0 <= e <= 3
     pre: 0 <= c1 <= 200 and 0 <= c2 <= 200 and 0 <= t <= 200 and 0 <= r <= 4
     post: _
     """
@@ -196,7 +199,7 @@ def h2_segmentation(v: int, c1: int, c2: int, t: int, r: int, e: int) -> None:
     rst: int | None = None
     if mode != "rst" and e:
         return
-    code = (2, 0, 8)[ladder(e, 0, 2)]
+    code = (2, 0, 8, 7)[ladder(e, 0, 3)]
     if mode == "one":
         if c1 or c2 or t or r:
             return
@@ -249,6 +252,11 @@ def _h2(is_async: bool, vi: int, cuts: typing.Any, trunc: int | None, rst: int |
             got_body = rd.value
         else:
             failed = rd
+            # a caller that touches the body again after the failure must not be handed what happened to arrive
+            rd2 = api.read(resp)
+            P.check(not rd2.ok, "cut-short-is-an-error", lambda: sig + f":second-read-returns-{len(rd2.value)}-bytes")
+            for prop in ("C02", "C15"):
+                P.check(rd.documented() or "h2." in rd.kind(), "documented-exception-type", lambda: sig + f":undocumented:{rd.kind()}", prop=prop)
         P.check(resp.status == int(var["status"]), "status", lambda: sig + f":status:{resp.status}")
         P.check(resp.headers == [(b"x-token", b"/r")] + var["extra"], "headers-order-duplicates", lambda: sig + f":headers:{resp.headers!r}")
         P.check(resp.extensions.get("http_version") == b"HTTP/2", "version", sig + ":version")
